@@ -1020,8 +1020,33 @@ mod caplab_c16 {
         let hops = rng.range(0, 7);
         for i in 0..hops {
             let code = *rng.pick(&[301u16, 302, 303, 307, 308]);
-            let loc = match rng.below(9) {
-                0 => Some(format!("https://other{}.example/abs/{}", i, ascii_token(rng))),
+            let loc = match rng.below(14) {
+                // every form of relative reference (RFC 3986 section 4.2 / 5.4), not only bare paths
+                9 => Some(match rng.below(8) {
+                    0 => format!("/rooted/{}?q={}&r=a%20b", ascii_token(rng), i),
+                    1 => format!("/rooted/{}#frag{}", ascii_token(rng), i),
+                    2 => format!("//net{}.example/{}", i, ascii_token(rng)),
+                    3 => format!("//net{}.example:8443/{}?x=1#y", i, ascii_token(rng)),
+                    4 => format!("/{}/./{}/../{}", ascii_token(rng), ascii_token(rng), ascii_token(rng)),
+                    5 => format!("/?{}", ascii_token(rng)),
+                    6 => format!("/{};p=1/{}?a=/b/../c", ascii_token(rng), ascii_token(rng)),
+                    _ => "/".to_string(),
+                }),
+                10 => Some(match rng.below(6) {
+                    0 => format!("?only={}", ascii_token(rng)),
+                    1 => format!("{}?q=1#f", ascii_token(rng)),
+                    2 => format!("../../{}/./{}", ascii_token(rng), ascii_token(rng)),
+                    3 => "..".to_string(),
+                    4 => format!("{}/", ascii_token(rng)),
+                    _ => format!("./{}/../{}#z", ascii_token(rng), ascii_token(rng)),
+                }),
+                11 => Some(match rng.below(4) {
+                    0 => format!("HTTPS://Upper{}.Example/{}", i, ascii_token(rng)),
+                    1 => format!("http://plain{}.example", i),
+                    2 => format!("https://u:p@auth{}.example:444/{}?k=v", i, ascii_token(rng)),
+                    _ => format!("https://other{}.example/a b/{}", i, ascii_token(rng)),
+                }),
+                0 | 12 | 13 => Some(format!("https://other{}.example/abs/{}", i, ascii_token(rng))),
                 1 => Some(format!("/rooted/{}", ascii_token(rng))),
                 2 => Some(format!("{}/{}", ascii_token(rng), ascii_token(rng))),
                 3 => Some(format!("../{}", ascii_token(rng))),
